@@ -229,5 +229,5 @@ Msgs_api == <<M(0, 1, 8), M(0, 2, 8)>>
 Msgs_bcast == <<M(0, 1, 5), M(0, 2, 7)>>
 NoBound == 0 - 1
 P_C12 == <<"C12">>
-P_C11 == <<"C11", "C01", "C02", "C03">>
+P_C11 == <<"C11", "C01", "C02", "C03", "C08">>
 =============================================================================
